@@ -53,7 +53,20 @@ def adversarial():
     out.append(mk(range(5), [0.1, 0.2, 0.30000000000000004, 0.4, 0.5]))  # collinear up to rounding
     out.append(mk([0, 1, 2, 3, 4, 5], [1/3, 2/3, 1, 4/3, 5/3, 2]))
     out.append(mk(range(12), [100, 50, 33.3, 25, 20, 16.6, 14.2, 12.5, 11.1, 10, 9, 8.3]))
+    # non-integer abscissae on a curve that reaches exactly 0: a line fitted through two such points reproduces them only up
+    # to rounding, and the relative metrics turn 1e-16 against 0 into an error of order 1
+    out.append(mk([0.5, 0.6000000000000001, 0.7000000000000001, 0.8], [1.0, 0.5, 0.2, 0.0]))
+    out.append(mk([0.1 * k + 0.3 for k in range(9)], [0.9, 0.55, 0.31, 0.17, 0.06, 0.0, 0.0, 0.0, 0.0]))
     return out
+
+
+def clipped_curve(rng, nmin=4, nmax=30):
+    """a decaying curve with non-integer abscissae, shifted down and clipped at 0 (reaches exactly 0 before its end)"""
+    n = rng.randint(nmin, nmax)
+    x = np.cumsum([rng.choice([0.1, 0.2, 0.3, 0.7]) for _ in range(n)]) + rng.choice([0.0, 0.5, 3.3])
+    y = np.array(sorted([rng.random() for _ in range(n)], reverse=True))
+    y = np.clip(y - y[rng.randint(n // 2, n - 1)], 0.0, None)
+    return mk(x, y)
 
 
 def random_curve(rng, nmin=3, nmax=40, kind=None):
